@@ -294,4 +294,33 @@ def gregorian2moslem (year month day : Int) : PyRes (Int × Int × Int) :=
     | none => .error .other
     | some s2 => .ok (g2m_tail s2.2.1 s2.1)
 
+/-! ### The same four functions called with `float` arguments (`isinstance(x, (int, float))` lets
+them through).  Each first reduces its arguments to `int`s -- `easter` with `int()` (truncation toward
+zero), the other three with `iint()` (floor) -- the range tests of the Moslem functions are made on
+the floats, before the reduction. -/
+
+/-- `Epoch.easter(year)` for a `float` year: `year = int(year)`. -/
+def easter_num (year : Num) : Int × Int :=
+  -- year = int(year)
+  easter (ptrunc year)
+
+/-- `Epoch.jewish_pesach(year)` for a `float` year: `year = iint(year)`. -/
+def jewish_pesach_num (year : Num) : Int × Int :=
+  -- year = iint(year)
+  jewish_pesach (pfloor year)
+
+/-- `Epoch.moslem2gregorian(year, month, day)` for `float` arguments. -/
+def moslem2gregorian_num (year month day : Num) : PyRes (Int × Int × (Int ⊕ Num)) :=
+  -- if day < 1 or day > 30 or month < 1 or month > 12 or year < 1: raise ValueError
+  if plt day 1 || plt 30 day || plt month 1 || plt 12 month || plt year 1 then .error .valueError
+  -- h = iint(year); m = iint(month); d = iint(day)
+  else moslem2gregorian (pfloor year) (pfloor month) (pfloor day)
+
+/-- `Epoch.gregorian2moslem(year, month, day)` for `float` arguments. -/
+def gregorian2moslem_num (year month day : Num) : PyRes (Int × Int × Int) :=
+  -- if day < 1 or day > 31 or month < 1 or month > 12 or year < -4712: raise ValueError
+  if plt day 1 || plt 31 day || plt month 1 || plt 12 month || plt year (-4712) then .error .valueError
+  -- x = iint(year); m = iint(month); d = iint(day)
+  else gregorian2moslem (pfloor year) (pfloor month) (pfloor day)
+
 end Pymeeus.Gen@K@
